@@ -89,8 +89,13 @@ def run_paths(ctx, fn, env0=None, this_names=("this",), include_exc=False, limit
 
         folder.smart = True
 
+    _par = getattr(fn, "_parent", None)
+    _owner = _par.name if isinstance(_par, ast.ClassDef) and any(isinstance(d, ast.Name) and d.id == "classmethod" for d in fn.decorator_list) else None
+
     def mk_eval(env):
-        return Evaluator(env=env, const_of=const_of, func_of=func_of, this_names=this_names, fold=folder)
+        e = Evaluator(env=env, const_of=const_of, func_of=func_of, this_names=this_names, fold=folder)
+        e.owner = _owner
+        return e
 
     def bind(env, target, term, ev):
         if isinstance(target, ast.Name):
